@@ -221,12 +221,29 @@ def cwatershedSpec (surf markers : Img Int) (bshape : List Nat) (bc : Array Int)
 def cwatershedModel (surf markers : Img Int) (bshape : List Nat) (bc : Array Int) : MSt :=
   modelRun surf (neighbours surf.shape (offsets bshape bc)) (fuelOf surf.shape) (modelInit surf markers)
 
+/-- `markers = np.asanyarray(markers, np.int64)` (`morph.py:314`) on one value of an integer or boolean marker image
+(`_verify_is_integer_type` has rejected every other dtype): numpy's C cast to a signed 64-bit integer — the value
+modulo `2^64` read as two's complement. The identity on every dtype but `uint64`, whose values `≥ 2^63` become
+negative labels. -/
+def castMarker (v : Int) : Int :=
+  let w := v % 18446744073709551616
+  if w ≥ 9223372036854775808 then w - 18446744073709551616 else w
+
+/-- the marker image as `_morph.cwatershed` receives it -/
+def castMarkers (m : Img Int) : Img Int := ⟨m.shape, m.data.map castMarker⟩
+
+/-- `mahotas.cwatershed(surface, markers, Bc)` below `get_structuring_elem`: the cast of the markers, then the kernel -/
+def cwatershedPy (surf markers : Img Int) (bshape : List Nat) (bc : Array Int) : MSt :=
+  cwatershedModel surf (castMarkers markers) bshape bc
+
 def handle (a : Args) : String :=
   match a.str "kind" with
   | "ws" =>
     let shape := a.nats "shape"
     let surf : Img Int := ⟨shape, (a.ints "data").toArray⟩
-    let markers : Img Int := ⟨shape, (a.ints "markers").toArray⟩
+    -- `mcast=1`: the markers are sent as the caller's values (any integer dtype) and cast here
+    let markers : Img Int := if a.has "mcast" then castMarkers ⟨shape, (a.ints "markers").toArray⟩
+      else ⟨shape, (a.ints "markers").toArray⟩
     let bshape := a.nats "bshape"
     let bc := (a.ints "bc").toArray
     let s := cwatershedSpec surf markers bshape bc
